@@ -249,4 +249,8 @@ def main(argv=None):
     print("%s tier=%s units=%d evaluations=%d nontrivial=%d violations=%d known=%d wall=%.1fs" % (
         prop, args.tier, len(cases), cov["evaluations"], len(nt), len(new),
         sum(len(h) for h in known_hits.values()), time.time() - t0))
+    if os.environ.get("VERIF_DEBUG"):
+        slow = sorted(((r.get("t", 0), i) for i, r in enumerate(results)), reverse=True)[:8]
+        for t, i in slow:
+            print("  slow unit %.1fs %s" % (t, json.dumps(cases[i], default=str)[:160]))
     return 1 if new else 0
